@@ -307,11 +307,14 @@ private:
             value.string_value = parse_string();
             return value;
         }
-        if (ch == '{') {
-            return parse_object();
-        }
-        if (ch == '[') {
-            return parse_array();
+        if (ch == '{' || ch == '[') {
+            if (depth_ >= kMaxNestingDepth) {
+                throw std::runtime_error("JSON nesting too deep");
+            }
+            ++depth_;
+            JsonValue nested = (ch == '{') ? parse_object() : parse_array();
+            --depth_;
+            return nested;
         }
         if (ch == 't' || ch == 'f') {
             return parse_boolean();
@@ -584,8 +587,11 @@ private:
         return input_[pos_++];
     }
 
+    static constexpr std::size_t kMaxNestingDepth = 64;
+
     std::string_view input_;
     std::size_t pos_{0};
+    std::size_t depth_{0};
 };
 
 const JsonValue* expect_string_field(const JsonValue& object, std::string_view key, std::string& error) {
